@@ -171,6 +171,7 @@ type world struct {
 	// key pair in two ASes); such a chain does not authenticate the key for 1-ff00:0:111.
 	shareKeys bool
 	sample    sample
+	ias       []addr.IA
 }
 
 // sample is the small description of a run kept in the evidence.
@@ -180,7 +181,6 @@ type sample struct {
 	Chains   []string `json:"chains"`
 	Accepted int      `json:"accepted"`
 	Refused  int      `json:"refused"`
-	ias    []addr.IA
 }
 
 func iaName(cn string, ia addr.IA, withIA bool) pkix.Name {
